@@ -418,11 +418,37 @@ QueriesOf ==
     \cup {Q("SELECT", "ANNOTATION", "x", <<c>>, <<sq>>) : c \in {d \in QAnnCore : d.k \in {"Res", "Key", "Set"}}, sq \in QSubs \cup {Optional(z) : z \in QSubs}}
 QueryOps == {RO("Query", [q |-> q, form |-> f]) : q \in QueriesOf, f \in {"text", "built"}}
 
+----------------------------------------------------------------------------
+(* C19: structural mutations of the serialisations of the current store (interpreted by the harness, which writes the   *)
+(* document of the current store, mutates it and loads it in a child process).  L(format, part, idx, op, arg)            *)
+L(f, p, i, o, a) == RO("Load", [format |-> f, part |-> p, idx |-> i, op |-> o, arg |-> a])
+NAnnDoc == Cardinality(LiveAnns(st))
+LoadOps ==
+    {L("json", "top", 1, "none", 0)}
+    \cup {L("json", "ann", i, o, 0) : i \in 1..Min2(NAnnDoc, 3),
+            o \in {"del_target", "del_id", "del_data", "dup", "swap_next", "target_string", "target_null", "target_number", "target_array",
+                   "type_unknown", "type_text_no_offset", "type_multi_empty", "type_multi_nested", "res_dangling", "self_target", "forward_target",
+                   "offset_inverted", "cursor_type_unknown", "data_set_dangling", "data_string", "data_incomplete"}}
+    \cup {L("json", "ann", i, o, a) : i \in 1..Min2(NAnnDoc, 2), o \in {"tempid", "tempid_target", "data_tempid"}, a \in 0..7}
+    \cup {L("json", "ann", 1, "offset", a) : a \in 0..8}
+    \cup {L("json", "set", 1, o, 0) : o \in {"key_dup", "key_null", "keys_string", "del_keys", "data_key_dangling", "value_type_unknown", "dup", "include_missing"}}
+    \cup {L("json", "set", 1, "data_tempid", a) : a \in 0..7} \cup {L("json", "set", 1, "data_value_deep", a) : a \in {0, 3, 40}}
+    \cup {L("json", "res", 1, o, 0) : o \in {"del_text", "text_number", "id_number", "include_missing", "include_self", "dup"}}
+    \cup {L("json", "top", 1, o, 0) : o \in {"type_wrong", "annotations_object", "resources_null", "extra_field", "include_self", "empty", "not_json", "deep_nesting"}}
+    \cup {L("json", "top", 1, "truncate", a) : a \in 1..9}
+    \cup {L("cbor", "file", 1, "truncate", a) : a \in 0..9} \cup {L("cbor", "file", 1, "bitflip", a) : a \in 0..39} \cup {L("cbor", "file", 1, "byte_ff", a) : a \in 0..9}
+    \cup {L("cbor", "file", 1, "none", 0), L("csv", "manifest", 1, "none", 0)}
+    \cup {L("csv", p, 1, "truncate", a) : p \in {"annotations", "manifest", "dataset"}, a \in {0, 3, 5, 8}}
+    \cup {L("csv", p, 1, "replace", a) : p \in {"annotations", "dataset", "manifest"}, a \in 0..9}
+    \cup {L("csv", p, 1, o, 0) : p \in {"annotations", "manifest", "dataset"}, o \in {"empty", "delete_file"}}
+    \cup {L("csv", "annotations", 1, "bitflip", a) : a \in 0..9}
+
 Has(x) == x \in Reads
 ReadOps ==
     (IF Has("lookup") THEN SetToSeq(LookupOps) ELSE <<>>)
     \o (IF Has("offsets") THEN SetToSeq(OffsetOps) \o SetToSeq(AnnOps) \o SetToSeq(ReportOps) ELSE <<>>)
     \o (IF Has("anntext") THEN SetToSeq(AnnOps) \o SetToSeq(ReportOps) ELSE <<>>)
+    \o (IF Has("loads") THEN SetToSeq(LoadOps) ELSE <<>>)
     \o (IF Has("queries") THEN SetToSeq(QueryOps) ELSE <<>>)
     \o (IF Has("webanno") THEN SetToSeq({RO("WebAnno", [ann |-> ByH(x), tmpl |-> t, ns |-> n]) : x \in LiveAnns(st), t \in BOOLEAN, n \in BOOLEAN}) ELSE <<>>)
     \o (IF Has("validate") THEN <<RO("Validate", [x |-> 0])>> ELSE <<>>)
